@@ -673,6 +673,35 @@ def run(report, p):
         raise AnalysisError(f"verify -dh: the loops over generations / root entries (format collection and root comparison) were not found ({n_root_loops})")
 
     # ---- rules shared with other properties (same mechanism, same rule, reported under every property it can break)
+    # ------------------------------------------------------------------ R9.12
+    r12 = report.rule(
+        "R9.12",
+        "every generation's directory hashes were computed under THAT generation's ignore patterns: a verification that compares the hashes computed in this run with the "
+        "entries of every generation (find_directory_hash_entries_for_path goes through all of them) must compute them per generation's patterns, or compare only "
+        "generations whose patterns equal the effective ones - computed once under the latest patterns, an untouched tree fails against every generation written "
+        "before a pattern was added",
+        1,
+    )
+    vdh = next((f for f in p.funcs.values() if f.name == "verify_directory_hash_subcommand"), None)
+    if vdh is None:
+        raise AnalysisError("verify_directory_hash_subcommand not found")
+    reach12 = set(p.reachable([vdh.qual]))
+    all_gens = any(q.endswith("find_directory_hash_entries_for_path") for q in reach12)
+    r12.instance(vdh, vdh.node, "verify -dh: reference entries vs. ignore patterns")
+    if all_gens:
+        # does anything on the verify -dh side read the patterns of an individual generation (hash_list.process_info.ignore_spec) to restrict or recompute?
+        per_gen = False
+        for q in reach12:
+            f12 = p.funcs[q]
+            if not f12.module.name.endswith(("commands", "history")) or f12.name in ("latest_ignore_patterns", "commit", "write_new_generation"):
+                continue
+            for n in walk_no_nested(f12.node):
+                if isinstance(n, ast.Attribute) and n.attr == "ignore_spec" and isinstance(n.ctx, ast.Load) and isinstance(n.value, ast.Attribute) and n.value.attr == "process_info":
+                    per_gen = True
+        r12.check(per_gen, vdh, vdh.node, "verify -dh computes the directory hashes once, under the patterns of the LATEST generation (plus -i / -ii), and compares them with the recorded entries of EVERY generation: after `create ROOT` (x.tmp present) and `create ROOT -i '*.tmp'`, `verify -dh ROOT` on the untouched tree reports a content and structure mismatch against generation 1 and exits 12", construct="all generations compared under the latest patterns")
+    else:
+        r12.check(True, vdh, vdh.node, "")
+
     include_rules(report, p, 'c03', ['R3.16'], 'verify -dh decides its exit code after the traversal: a TypeError from sorting collected records ends the command with exit 1 instead of 12')
     include_rules(report, p, 'c06', ['R6.3'], 'the loader recognises every manifest name the tool generates, for every folder name: a generation that is silently passed over makes the history look shorter or empty' + ' - verify -dh then exits 0 on any change')
     include_rules(report, p, 'c03', ['R3.11'], 'verify -dh reports every mismatch through the logger before it decides its exit code')
